@@ -269,6 +269,27 @@ func init() {
 		}
 		return v
 	}
+	// vSameTerm: true iff the two byte strings are syntactically the same symbolic value (a
+	// sufficient condition for equality that needs no solver call)
+	harnessAPI["vSameTerm"] = func(e *Engine, st *State, a []Value, ci ssa.CallInstruction) Value {
+		x, y := a[0].(Slice), a[1].(Slice)
+		if !x.Len.IsConst() || !y.Len.IsConst() || x.Len.C != y.Len.C {
+			return Bool{tFalse}
+		}
+		if x.Len.C == 0 {
+			return Bool{tTrue}
+		}
+		if x.Obj == 0 || y.Obj == 0 {
+			return Bool{tFalse}
+		}
+		xa, ya := st.obj(x.Obj).Arr, st.obj(y.Obj).Arr
+		for i := uint64(0); i < x.Len.C; i++ {
+			if Select(xa, BVAdd(x.Off, U64(i))) != Select(ya, BVAdd(y.Off, U64(i))) {
+				return Bool{tFalse}
+			}
+		}
+		return Bool{tTrue}
+	}
 	harnessAPI["vExpectPanic"] = func(e *Engine, st *State, a []Value, ci ssa.CallInstruction) Value {
 		st.expectPanic = true
 		return nil
